@@ -90,6 +90,12 @@ def gen_recipe(rng):
             # an elaboratable that owns a ClockDomain object (created once, assigned with `m.domains.<name> = cd` in elaborate),
             # wrapped in a DomainRenamer of that domain: the guide says renaming does not mutate the elaboratable
             m["own_cd"] = {"name": rng.choice(doms), "to": rng.choice(["video", "pix"])}
+        if rng.random() < 0.1:
+            # an elaboratable that builds its black-box Instance once and returns the stored object from elaborate()
+            m["stored_inst"] = {"dom": rng.choice(doms), "a": rng.choice(readable)}
+        if rng.random() < 0.1:
+            # submodules that are dataclasses: two distinct instances that compare equal, or one that is not hashable at all
+            m["dataclass_subs"] = rng.choice(["equal_twins", "unhashable"])
         if rng.random() < 0.2:
             # a black-box instance clocked from a (usually implicitly created) domain
             m["inst"] = {"dom": rng.choice(doms), "a": rng.choice(readable)}
@@ -177,6 +183,41 @@ def build_recipe(recipe):
             own = Own()
             m.submodules.own = DomainRenamer({oc["name"]: oc["to"]})(own)
             lib_ports.append(own.q)
+        si_ = spec.get("stored_inst")
+        if si_:
+            from amaranth.hdl import Instance, ClockSignal
+
+            class Stored(Elaboratable):
+                def __init__(self):
+                    self.q = Signal(2, name="st_q")
+                    self.inst = Instance("blackbox2", i_clk=ClockSignal(si_["dom"]), i_a=sigs[si_["a"]], o_q=self.q)
+
+                def elaborate(self, platform):
+                    return self.inst
+            st_ = Stored()
+            m.submodules.stored = st_
+            lib_ports.append(st_.q)
+        dcs = spec.get("dataclass_subs")
+        if dcs:
+            import dataclasses
+
+            @dataclasses.dataclass(unsafe_hash=(dcs == "equal_twins"))
+            class Inv(Elaboratable):
+                width: int
+
+                def __post_init__(self):
+                    self.i = Signal(self.width, name="inv_i")
+                    self.o = Signal(self.width, name="inv_o")
+
+                def elaborate(self, platform):
+                    mm = Module()
+                    mm.d.comb += self.o.eq(~self.i)
+                    return mm
+            for k_ in range(2 if dcs == "equal_twins" else 1):
+                iv = Inv(3)
+                m.submodules["inv%d" % k_] = iv
+                m.d.comb += iv.i.eq(sigs[0])
+                lib_ports.append(iv.o)
         ins = spec.get("inst")
         if ins:
             from amaranth.hdl import Instance, ClockSignal, ResetSignal
